@@ -139,7 +139,17 @@ Theorem C19_truncated : forall sha b64d kdf,
 Proof. exact C19_truncated_proof. Qed.
 Print Assumptions C19_truncated.
 
-(* 13. the hash string is ASCII and its base64 fields contain no ':' (the encoder never emits the
+(* 13. exact behaviour on EVERY well-formed string, whatever parameters it embeds (a hash written by
+       a past or future hash_password with other N, r, p, salt / digest lengths): the answer is
+       scrypt(salt, length, N, r, p)(sha256(q)) == digest, exceptions of scrypt passed on *)
+Theorem C19_verify_wellformed : forall sha b64d kdf, b64_roundtrip b64d ->
+  forall q k salt dg, params_in_range k -> k_sl k = len salt -> k_len k = len dg -> 1 <= len dg ->
+  verify_password sha b64d kdf (PBytes q) (PStr (Ok (hash_string (b64e (pack_params k)) (b64e (salt ++ dg))))) =
+  (do d <- kdf salt (k_len k) (k_N k) (k_r k) (k_p k) (sha q); Ok (bytes_eqb d dg)).
+Proof. exact C19_verify_wellformed_proof. Qed.
+Print Assumptions C19_verify_wellformed.
+
+(* 14. the hash string is ASCII and its base64 fields contain no ':' (the encoder never emits the
        separator), so .decode("utf-8") / .encode("utf-8") is the identity on it *)
 Theorem C19_hash_ascii : forall sha kdf pw salt h, hash_password sha kdf pw salt = Ok h ->
   Forall (fun c => (Byte.to_N c < 128)%N) h.
@@ -206,3 +216,14 @@ Example C19_example_truncations :
   forallb (fun n => match verify_password toy_sha b64d_strict toy_kdf (PBytes ex_pw) (PStr (Ok (firstn n ex_hash))) with
                     | Err EValue => true | _ => false end) (seq 0 74) = true.
 Proof. vm_compute. reflexivity. Qed.
+
+(* the modelled encoder on the RFC 4648 test vectors ("", f, fo, foo, foob, fooba, foobar), inside Coq *)
+Example C19_b64encode_rfc4648 :
+  b64e [] = [] /\
+  b64e ["f"]%byte = ["Z";"g";"=";"="]%byte /\
+  b64e ["f";"o"]%byte = ["Z";"m";"8";"="]%byte /\
+  b64e ["f";"o";"o"]%byte = ["Z";"m";"9";"v"]%byte /\
+  b64e ["f";"o";"o";"b"]%byte = ["Z";"m";"9";"v";"Y";"g";"=";"="]%byte /\
+  b64e ["f";"o";"o";"b";"a"]%byte = ["Z";"m";"9";"v";"Y";"m";"E";"="]%byte /\
+  b64e ["f";"o";"o";"b";"a";"r"]%byte = ["Z";"m";"9";"v";"Y";"m";"F";"y"]%byte.
+Proof. vm_compute. repeat split. Qed.
